@@ -251,6 +251,13 @@ fn run_bundled(rec: &Recorder, check: &'static str) {
 fn run_synthetic(rec: &Recorder, check: &'static str) {
     let mut zs: Vec<Arc<Zone>> = zones::synthetic().zones.clone();
     zs.extend(zones::posix_zones().iter().cloned());
+    // rules with a transition exactly on the last (first) representable whole second
+    // (9999-12-30T22:00:00Z, -9999-01-02T01:59:59Z): the range checks at both ends
+    for s in ["AAA0BBB,J100,J364/23", "EST5EDT,M3.2.0,J364/18", "AAA-3BBB,J100,J365/2", "AAA0BBB,J364/22,J100", "AAA0BBB,J2/1:59:59,J300", "AAA0BBB,J300,J2/2:59:59", "AAA0BBB,J2/2,J300"] {
+        if let Some(z) = zones::by_label(&format!("posix:{s}")) {
+            zs.push(z);
+        }
+    }
     for &o in &[0, 3600, -93599] {
         zs.push(zones::by_label(&format!("fixed:{o}")).unwrap());
     }
